@@ -208,6 +208,10 @@ def sub_associate(case):
     max_diff = _scalar(case, case["md"])
     tr1, P1, O1 = _tagged(t1, case["mode1"], 1)
     tr2, P2, O2 = _tagged(t2, case["mode2"], 2)
+    # which views were read (cached) before the association must not matter
+    for tr, pre in ((tr1, case.get("pre1", [])), (tr2, case.get("pre2", []))):
+        for v in pre:
+            getattr(tr, v)
     s1, s2 = snapshot.snapshot(tr1), snapshot.snapshot(tr2)
     margin = _margin_for(case, t1, t2, offset)
     try:
@@ -229,6 +233,10 @@ def sub_associate(case):
                        clause="equal_length")
     idx1 = _identify(o1, t1, "first")
     idx2 = _identify(o2, t2, "second")
+    for out, nm in ((o1, "first"), (o2, "second")):
+        ok, details = out.check()
+        if not ok:
+            raise Mismatch("the %s output fails evo's own validity check: %s" % (nm, details), clause="copy_of_input")
     # pose and timestamp travel together, bit-identical
     for out, idx, P, O, mode, nm in ((o1, idx1, P1, O1, case["mode1"], "first"), (o2, idx2, P2, O2, case["mode2"], "second")):
         if len(idx) == 0:
@@ -238,6 +246,9 @@ def sub_associate(case):
         if mode == "pq":
             if not np.array_equal(np.asarray(out.orientations_quat_wxyz), O[idx]):
                 raise Mismatch("orientations of the %s output are not those of the matched input poses" % nm, clause="copy_of_input")
+            got = out.poses_se3
+            if len(got) != len(idx) or not all(np.array_equal(np.asarray(g)[:3, 3], P[i]) for g, i in zip(got, idx)):
+                raise Mismatch("pose matrices of the %s output (%d) are not those of the %d matched input poses" % (nm, len(got), len(idx)), clause="copy_of_input")
         else:
             got = out.poses_se3
             if len(got) != len(idx) or not all(np.array_equal(g, O[i]) for g, i in zip(got, idx)):
@@ -382,7 +393,7 @@ def _sorted_unique(xs):
     return sorted(set(xs))
 
 
-def _mk_case(base, res, a, bmode, b_ind, picks, jit, off, md, mode1, mode2, swap):
+def _mk_case(base, res, a, bmode, b_ind, picks, jit, off, md, mode1, mode2, swap, pre1=(), pre2=()):
     a = _sorted_unique(a)
     if bmode == "independent":
         b = _sorted_unique(b_ind)
@@ -402,7 +413,7 @@ def _mk_case(base, res, a, bmode, b_ind, picks, jit, off, md, mode1, mode2, swap
     if swap:
         a, b = b, a
         off = -off
-    return {"base": base, "res": res, "a": a, "b": b, "off": off, "md": md, "mode1": mode1, "mode2": mode2}
+    return {"base": base, "res": res, "a": a, "b": b, "off": off, "md": md, "mode1": mode1, "mode2": mode2, "pre1": list(pre1), "pre2": list(pre2)}
 
 
 st_case = st.builds(
@@ -419,6 +430,8 @@ st_case = st.builds(
     st.sampled_from(["pq", "se3"]),
     st.sampled_from(["pq", "se3"]),
     st.booleans(),
+    st.lists(st.sampled_from(["positions_xyz", "orientations_quat_wxyz", "poses_se3"]), max_size=2, unique=True),
+    st.lists(st.sampled_from(["positions_xyz", "orientations_quat_wxyz", "poses_se3"]), max_size=2, unique=True),
 )
 
 st_bulk = st.fixed_dictionaries({
